@@ -6,7 +6,7 @@ import vlib
 HARNESS = "net_driver_pool"
 LEAN_MODULES = ["ViaProofs.C12"]
 LEMMA_MODULES = ["ViaProofs.C18", "ViaProofs.ConnLemmas"]
-REQUIRED_THEOREMS = ["Via.C12_accept_on_strand", "Via.C12_collections_concurrent", "Via.C12_lock_discipline"]
+REQUIRED_THEOREMS = ["Via.C12_accept_on_strand", "Via.C12_collections_concurrent", "Via.C12_lock_discipline", "Via.C12_connected_before_reception"]
 LEVEL = "proof"
 RULE = ("structural obligations re-extracted from the source (strand per accepted socket, concurrent collections, lock discipline of "
         "the map) + the real server built with HTTP_THREAD_SAFE and run by 2..16 threads against many loopback connections sending "
@@ -65,12 +65,18 @@ def extra_checks(tier, rng, binaries, log):
                         "overlaps": kv.get("overlaps"), "tsan_reports": kv.get("tsan_reports", "-")})
         if kv.get("overlaps") != "0":
             res.append((False, "handlers of one connection ran concurrently %s times" % kv.get("overlaps"), cmdline, {}))
+        if kv.get("order_violations", "0") != "0":
+            res.append((False, "%s handler calls for a connection whose connected handler had not returned yet" % kv.get("order_violations"),
+                        cmdline, {}))
+        if kv.get("handled") != kv.get("sent"):
+            res.append((False, "%s of %s requests sent one at a time never reached the request handler in the thread pool" % (
+                int(kv.get("sent", 0)) - int(kv.get("handled", 0)), kv.get("sent")), cmdline, {}))
         if kv.get("tsan_reports", "0") not in ("0", "-"):
             top = [l for l in err.splitlines() if "via::" in l][:6]
             res.append((False, "ThreadSanitizer reported %s data race(s); frames: %s" % (kv.get("tsan_reports"), top), cmdline, {}))
         if kv.get("srv_exceptions", "0") != "0":
             res.append((False, "an exception escaped an io thread", cmdline, {}))
-        if kv.get("answered") != kv.get("sent"):
+        elif kv.get("answered") != kv.get("sent"):
             res.append((False, "%s of %s sequential requests were never answered in the thread pool (handled=%s, sent events=%s)" % (
                 int(kv.get("sent", 0)) - int(kv.get("answered", 0)), kv.get("sent"), kv.get("handled"), kv.get("srv_sent")), cmdline, {}))
     res.append((True, "", "", {"evaluations": n, "distinct_nontrivial": max(2, n), "samples": samples}))
